@@ -225,7 +225,7 @@ Section Step.
     ph (Rn s n) = PMain -> seteqb d (filter (jfin s) (pend (Rn s n))) = true -> NoDup d ->
     main_upd c s s' n d -> inv5_at c s' n.
   Proof.
-    intros Hph Hd Hnd (Us & Urc & U).
+    intros Hph Hd Hnd (Us & Urc & Ufl & U).
     destruct (Inv5_at c s n I5) as (A1 & A2 & A3 & A4 & A5 & A6 & A7 & A8 & A9 & A10 & A11 & A12).
     pose proof (seteqb_spec _ _ Hd) as Hdin.
     assert (Hdfacts : forall x, In x d -> In x (pend (Rn s n)) /\ In x (members c n) /\
@@ -396,7 +396,7 @@ Section Step.
   Theorem inv5_at_step n : inv5_at c s' n.
   Proof.
     destruct (R_effect lvl c s e s' W (i_pend c s I1) Hs n)
-      as [Hq _|_ B1 _ B3 B4 Bnd Bs Bn _ _ _ _ Bcov _|_ A1 A2 A3 _ A4 A5 A6 [K|(Hph & d & Hd & Hnd & U)]].
+      as [Hq _|_ B1 _ B3 B4 Bnd Bs Bn _ _ _ _ Bcov _|_ A1 A2 A3 _ A4 A5 A6 [K|(Hph & d & Hd & Hnd & U)] A8].
     - destruct Hq as (Q1 & Q2 & Q3 & Q4 & _).
       apply (inv5_keep n (fun _ => true)); auto.
       + rewrite Q2. apply filter_true_id.
